@@ -27,7 +27,7 @@ from ..report import Ctx
 from ..selftest import Mutant
 
 PROP = "C04"
-TECHNIQUE = "static analysis: writer/reader codec table derived from RunInfo's field annotations (symbolic key-set replay, per-field encoder/decoder sets) + who-may-build-paths scan + proxy->pickle taint + CFG must-pass of persistence + suffix-operation rule on name-derived paths + subclass-constructor rebinding rule + byte-codec agreement between every pickle writer and reader of the run folder + record-written-on-every-path must-pass"
+TECHNIQUE = "static analysis: writer/reader codec table derived from RunInfo's field annotations (symbolic key-set replay, per-field encoder/decoder sets) + who-may-build-paths scan + proxy->pickle taint + CFG must-pass of persistence + suffix-operation rule on name-derived paths + subclass-constructor rebinding rule + byte-codec agreement between every pickle writer and reader of the run folder + record-written-on-every-path must-pass + typed whole-name-vs-single-name membership rule (annotation typer, reaching definitions) + run-folder-only choice between file path and in-memory value"
 RI = "pipefunc.map._run_info"
 EXPLANATION = (
     "Static analysis: symbolic key-set bookkeeping of RunInfo.dump against RunInfo.load (writer/reader table), a "
